@@ -6,6 +6,9 @@ CHECKS = {
  "C13": {"level": "proof", "technique": TECH,
          "text": "the four gates of ProcessingItem (rule / detection item / field name / field-in-value) are proved equal to the specification gate for every condition list or expression, linking, negation flag and condition result (conditions abstract); ProcessingPipeline.apply is proved to re-create every per-rule tracking field before the first item runs",
          "note": "assumed: class invariant established by _check_conditions; built-in condition classes' own match() meaning and the pyparsing expression grammar are outside the proved part; pyvc encoding; z3"},
+ "C14": {"level": "proof", "technique": TECH,
+         "text": "ProcessingPipeline.__add__/__radd__ proved to be component-wise concatenation with right-biased vars and ownership hand-over; lemmas: associativity, identity, later-vars-win; resolver.resolve proved to fold + in (priority, name) order for every argument order (0..3 pipelines unrolled, priorities symbolic); Backend.init_processing_pipeline order and Backend.convert stage trace proved with abstract callees",
+         "note": "assumed: sorted() stable/<-only; __post_init__/_clear_pipeline summaries; list length of resolve unrolled to <= 3 (stated bound); bounded stand-in (all permutations/bracketings of <= 3/4 real pipelines, one backend stage trace) reported separately"},
 }
 NOT_APPLICABLE = {
  "C20": "quantifies over interpreter processes, PYTHONHASHSEED values and draws of the random module for the whole load+convert output: no contract on a single call can express 'another process'; deciding it needs repeated subprocess execution, a different technique family (DESIGN.md section 11)",
